@@ -665,7 +665,25 @@ func extractWALFileInfo(baseDir string) (map[string]*walFilesInfo, error) {
 		filesInfo[key].walFiles = append(filesInfo[key].walFiles, fileName)
 	}
 
+	// The files of a block must be replayed in the order they were written, which is the order
+	// of their wal file index and not of their names ("..._10.wal" sorts before "..._2.wal").
+	for _, info := range filesInfo {
+		sort.SliceStable(info.walFiles, func(i, j int) bool {
+			return getWalFileIndex(info.walFiles[i]) < getWalFileIndex(info.walFiles[j])
+		})
+	}
+
 	return filesInfo, nil
+}
+
+// Returns the <walFileIndex> of "shardId_<shard>_segId_<segID>_blockId_<blockNo>_<walFileIndex>.wal"
+func getWalFileIndex(fileName string) uint64 {
+	parts := strings.Split(strings.TrimSuffix(fileName, ".wal"), "_")
+	idx, err := strconv.ParseUint(parts[len(parts)-1], 10, 64)
+	if err != nil {
+		return math.MaxUint64
+	}
+	return idx
 }
 
 func deleteWalFile(dirPath, fileName string) error {
